@@ -33,8 +33,6 @@ void harness(void)
     } else {
         val = (ELEM *)NEW_OBJ(sizeof(ELEM)); ELEM_SET(val, ELEM_LIVE, x); g_solo = val;
     }
-    /* known finding: the reference dangles when push_back(v[a]) has to reallocate */
-    C02_KF(KF_C02_push_back_self_alias, alias && size == cap);
     ELEM *d0 = v.m_data;
     int old_k = k < size ? ELEM_V(&v.m_data[k]) : 0;
 
@@ -49,7 +47,7 @@ void harness(void)
     if (size < cap) __CPROVER_assert(v.m_data == d0 && v.m_capacity == cap, "value: push_back: no reallocation while size() < capacity()");
     CANARY("push_back end reachable");
 }
-''', kf=['C02_push_back_self_alias'])
+''')
 
 # ---------------------------------------------------------------------------------------------- emplace_back
 unit('emplace_back',
@@ -137,8 +135,6 @@ unit('clear',
      '''
 void harness(void)
 {''' + PRE + '''
-    /* known finding: the loop counter is an unsigned int */
-    C02_KF(KF_C02_clear_uint_index, size > 0xFFFFFFFFu);
     ELEM *d0 = v.m_data;
 
     vector_clear(&v);
@@ -149,7 +145,7 @@ void harness(void)
     __CPROVER_assert(v.m_data == d0 && v.m_capacity == cap, "value: clear: block and capacity unchanged");
     CANARY("clear end reachable");
 }
-''', kf=['C02_clear_uint_index'])
+''')
 
 # ---------------------------------------------------------------------------------------------- resize
 unit('resize',
@@ -247,193 +243,16 @@ unit('at_const',
 void harness(void)
 {''' + PRE + '''
     WIT(size_t, n);
-    /* known finding: at() const asserts n < size() before it can throw */
-    C02_KF(KF_C02_at_const_assert, n >= size);
     ELEM *d0 = v.m_data;
     const ELEM *r = vector_at_c(&v, n);
     if (n < size) __CPROVER_assert(!g_thrown && r == d0 + n, "value: at(n) const, n < size(): refers to element n, nothing thrown");
     else __CPROVER_assert(g_thrown == 1, "value: at(n) const, n >= size(): throws std::out_of_range");
     CANARY("at const end reachable");
 }
-''', kf=['C02_at_const_assert'])
+''')
 
-unit('reverse_iter',
-     ['igris::vector::rbegin', 'igris::vector::rend'],
-     [],
-     'rbegin()/rend() (declared as reverse_iterator = T*): as for std::vector, stepping from rbegin() with ++ reaches rend() after exactly size() steps '
-     'and visits the elements last to first; both stay inside [data()-0, data()+size()] (no pointer before the block)',
-     '''
-void harness(void)
-{''' + PRE + '''
-    __CPROVER_assume(!isnull);
-    const ELEM *rb = vector_rbegin(&v);
-    const ELEM *re = vector_rend(&v);
-    if (size > 0) __CPROVER_assert(rb == v.m_data + (size - 1), "value: rbegin() refers to the last element");
-    /* known finding (fails for every vector, so the clauses are dropped in the carved-out run instead of an input region):
-       rbegin()/rend() are plain pointers, rend() is m_data - 1 */
-    if (KF_C02_reverse_iter != 1) {
-        __CPROVER_assert(__CPROVER_same_object(re, v.m_data) && __CPROVER_POINTER_OFFSET(re) >= 0, "bounds: rend() does not point before the block");
-        __CPROVER_assert(size == 0 || __CPROVER_POINTER_OFFSET(rb) >= 0, "bounds: rbegin() does not point before the block");
-        __CPROVER_assert(rb + size == re, "value: ++ from rbegin() reaches rend() after size() steps");
-    }
-    CANARY("reverse_iter end reachable");
-}
-''', kf=['C02_reverse_iter'])
 
-# ---------------------------------------------------------------------------------------------- erase(iterator)
-unit('erase_it',
-     ['igris::vector::erase(iterator)'],
-     [],
-     'erase(pos), pos dereferenceable (std::vector::erase(const_iterator)): removes exactly the element at pos - size()-1, elements before pos keep their '
-     'place, elements after pos move down by one; the removed element is destroyed exactly once (nothing alive at or above the new size()); block and capacity kept',
-     '''
-void harness(void)
-{''' + PRE + '''
-    WIT(size_t, pos);
-    __CPROVER_assume(pos < size);               /* ISO: pos is a valid dereferenceable iterator */
-    ELEM *d0 = v.m_data;
-    int old_k = k < size ? ELEM_V(&v.m_data[k]) : 0;
-    int old_k1 = k + 1 < size ? ELEM_V(&v.m_data[k + 1]) : 0;
 
-    vector_erase_to_end(&v, v.m_data + pos);
-
-    /* known finding (fails for every pos: the dropped elements are never destroyed; for pos < size()-1 also the wrong elements are dropped):
-       the carved-out run checks the bounds group and, for pos == size()-1, the value group */
-    c02_vec_check_ex(&v, KF_C02_erase_it_truncates != 1);
-    c02_no_leak(&v, NULL);
-    __CPROVER_assert(v.m_data == d0 && v.m_capacity == cap, "value: erase(pos): block and capacity unchanged");
-    if (KF_C02_erase_it_truncates != 1 || pos == size - 1) {
-        __CPROVER_assert(v.m_size == size - 1, "value: erase(pos): size() shrinks by one");
-        if (k < pos) __CPROVER_assert(ELEM_V(&v.m_data[k]) == old_k, "value: erase(pos): elements before pos keep their value and position");
-        if (k >= pos && k < size - 1) __CPROVER_assert(ELEM_V(&v.m_data[k]) == old_k1, "value: erase(pos): elements after pos move down by one");
-    }
-    CANARY("erase(pos) end reachable");
-}
-''', kf=['C02_erase_it_truncates'])
-
-# ---------------------------------------------------------------------------------------------- erase(first, last)
-unit('erase_range',
-     ['igris::vector::erase(iterator, iterator)', 'std::move(first, last, d) stub'],
-     ['ER'],
-     'erase(first, last), begin() <= first <= last <= end(): removes [first, last) - size() shrinks by last-first, elements before first keep their place, '
-     'elements from last on move down by last-first; exactly the removed elements\' objects are destroyed: nothing is assigned to or moved from a destroyed '
-     'slot, nothing alive at or above the new size(); block and capacity kept',
-     '''
-void harness(void)
-{''' + PRE + '''
-    WIT(size_t, fi); WIT(size_t, li);
-    __CPROVER_assume(fi <= li && li <= size);
-    __CPROVER_assume(!isnull);                   /* (NULL, 0, 0): erase(NULL, NULL) is not a call std::vector defines either */
-    __CPROVER_assume(j == k + (li - fi));        /* second tracked slot = the source of slot k (value bookkeeping only) */
-    /* known finding: destroys [first, last) first and then move-assigns into those slots; the moved-from tail stays alive above size() */
-    C02_KF(KF_C02_erase_range_lifetime, fi < li && li < size);
-    ELEM *d0 = v.m_data;
-    int old_k = k < size ? ELEM_V(&v.m_data[k]) : 0;
-    int old_j = j < size ? ELEM_V(&v.m_data[j]) : 0;
-
-    vector_erase_range(&v, v.m_data + fi, v.m_data + li);
-
-    c02_vec_check(&v);
-    c02_no_leak(&v, NULL);
-    __CPROVER_assert(v.m_data == d0 && v.m_capacity == cap, "value: erase(first, last): block and capacity unchanged");
-    __CPROVER_assert(v.m_size == size - (li - fi), "value: erase(first, last): size() shrinks by last - first");
-    if (k < fi) __CPROVER_assert(ELEM_V(&v.m_data[k]) == old_k, "value: erase(first, last): elements before first keep their value and position");
-    if (k >= fi && k < size - (li - fi)) __CPROVER_assert(ELEM_V(&v.m_data[k]) == old_j, "value: erase(first, last): elements from last on move down by last - first");
-    CANARY("erase(first, last) end reachable");
-}
-''', kf=['C02_erase_range_lifetime'], extra={'solver': 'cadical'}, need_j=True)
-
-# ---------------------------------------------------------------------------------------------- insert(pos, value)
-INSERT_PRE = '''
-    WIT(size_t, pos); WIT(int, x);
-    __CPROVER_assume(pos <= size && size < C02_MAXN && 0 <= x && x <= C02_VMAX);
-    __CPROVER_assume(REALLOC ? size == cap : size < cap);   /* case split (params): with / without reallocation */
-    __CPROVER_assume(k == 0 ? j == 0 : j == k - 1);         /* second tracked slot = the source of slot k (value bookkeeping only) */
-    ELEM *d0 = v.m_data;
-    int old_k = k < size ? ELEM_V(&v.m_data[k]) : 0;
-    int old_j = j < size ? ELEM_V(&v.m_data[j]) : 0;
-'''
-INSERT_POST = '''
-    c02_vec_check(&v);
-    c02_no_leak(&v, NULL);
-    __CPROVER_assert(v.m_size == size + 1, "value: %(f)s: size() grows by one");
-    __CPROVER_assert(r == v.m_data + pos, "value: %(f)s: returns an iterator to the inserted element");
-    if (k < pos) __CPROVER_assert(ELEM_V(&v.m_data[k]) == old_k, "value: %(f)s: elements before pos keep their value and position");
-    if (k == pos) __CPROVER_assert(ELEM_V(&v.m_data[k]) == x, "value: %(f)s: the element at pos is the new one");
-    if (k > pos && k <= size) __CPROVER_assert(ELEM_V(&v.m_data[k]) == old_j, "value: %(f)s: elements from pos on move up by one");
-    if (size < cap) __CPROVER_assert(v.m_data == d0 && v.m_capacity == cap, "value: %(f)s: no reallocation while size() < capacity()");
-'''
-SPLIT = {'params': {'REALLOC': [0]}, 'params_thorough': {'REALLOC': [0, 1]}, 'timeout': 400, 'solver': 'cadical'}
-SPLIT_INS = dict(SPLIT, params={'REALLOC': [0], 'BYINDEX': [0]}, params_thorough={'REALLOC': [0, 1], 'BYINDEX': [0, 1]})
-SPLIT_NOTE = ['quick tier: the case size() < capacity() (no reallocation); thorough tier: also size() == capacity() (solver time > 60 s)']
-unit('insert_value',
-     ['igris::vector::insert(const_iterator, const T&)', 'igris::vector::insert(int, const T&)', 'std::move_backward stub', 'std::prev stub'],
-     ['NOREALLOC', 'AD', 'CB', 'W_INSERT'],
-     'insert(pos, x), begin() <= pos <= end(), x outside the vector, from an arbitrary VEC state: size()+1, elements before pos unchanged, element pos == x, '
-     'elements from pos on moved up by one, iterator to the new element returned; lifetime - only live elements are assigned to / moved from, the new '
-     'last slot is constructed, nothing alive above size(); the (int pos) overload forwards to it',
-     '''
-void harness(void)
-{''' + PRE + INSERT_PRE + '''
-    int by_index = BYINDEX;       /* params: the (int pos) overload is exercised in the thorough tier */
-    ELEM *val = (ELEM *)NEW_OBJ(sizeof(ELEM)); ELEM_SET(val, ELEM_LIVE, x); g_solo = val;
-    if (by_index) __CPROVER_assume(pos <= 0x7fffffff);
-
-    ELEM *r = by_index ? vector_insert_at(&v, (int)pos, val) : vector_insert(&v, v.m_data + pos, val);
-''' + INSERT_POST % {'f': 'insert(pos, x)'} + '''
-    __CPROVER_assert(C02_IS(val, ELEM_LIVE, x), "frame: insert(pos, x): the argument is not modified");
-    CANARY("insert(pos, x) end reachable");
-}
-''', kf=['C02_insert_raw_slot'], extra=SPLIT_INS, assumptions=SPLIT_NOTE, need_j=True)
-
-unit('insert_alias',
-     ['igris::vector::insert(const_iterator, const T&) with an element of the vector as argument'],
-     ['NOREALLOC', 'AD', 'CB', 'W_INSERT'],
-     'insert(pos, v[a]) (std::vector supports an argument that is an element of the vector): the inserted element equals the value v[a] had before the '
-     'call; the argument is read while it is a live element of a live block (the shifted elements are covered by insert_value)',
-     '''
-void harness(void)
-{''' + PRE + '''
-    WIT(size_t, pos); WIT(size_t, a);
-    __CPROVER_assume(pos <= size && size < C02_MAXN);
-    __CPROVER_assume(a < size && j == a);       /* second tracked slot = the argument (value bookkeeping only) */
-    __CPROVER_assume(REALLOC ? size == cap : size < cap);   /* case split (params): with / without reallocation */
-    ELEM *val = &v.m_data[a];
-    int x = ELEM_V(val);
-    /* known finding: the argument is read after the shift (a >= pos: from a moved-from element) / after the old block has been released */
-    C02_KF(KF_C02_insert_self_alias, a >= pos || size == cap);
-    int old_k = k < size ? ELEM_V(&v.m_data[k]) : 0;
-
-    ELEM *r = vector_insert(&v, v.m_data + pos, val);
-
-    c02_vec_check(&v);
-    c02_no_leak(&v, NULL);
-    __CPROVER_assert(v.m_size == size + 1, "value: insert(pos, v[a]): size() grows by one");
-    __CPROVER_assert(r == v.m_data + pos, "value: insert(pos, v[a]): returns an iterator to the inserted element");
-    if (k < pos) __CPROVER_assert(ELEM_V(&v.m_data[k]) == old_k, "value: insert(pos, v[a]): elements before pos keep their value and position");
-    if (k == pos) __CPROVER_assert(ELEM_V(&v.m_data[k]) == x, "value: insert(pos, v[a]): the element at pos has the value v[a] had before the call");
-    CANARY("insert(pos, v[a]) end reachable");
-}
-''', kf=['C02_insert_raw_slot', 'C02_insert_self_alias'], extra=dict(SPLIT, params_thorough={'REALLOC': [0]}),
-     assumptions=['insert_alias: only the case size() < capacity() is run: with a reallocation EVERY aliased call is inside the known finding C02_insert_self_alias '
-                  '(use after free; reproduced natively by c02_repro insert_self_realloc and, for push_back, probed by unit push_back)'], need_j=True)
-
-# ---------------------------------------------------------------------------------------------- emplace(pos, arg)
-unit('emplace',
-     ['igris::vector::emplace(const_iterator, 1 arg)', 'std::move_backward stub', 'std::prev stub'],
-     ['NOREALLOC', 'AD', 'CB', 'W_EMPLACE'],
-     'emplace(pos, a) (one constructor argument), begin() <= pos <= end(), from an arbitrary VEC state: as insert(pos, T(a)); lifetime - T(a) is '
-     'constructed over RAW storage or assigned to a live element, never placement-new\'ed over an element that has not been destroyed',
-     '''
-void harness(void)
-{''' + PRE + INSERT_PRE + '''
-    /* known findings C02_insert_raw_slot / C02_emplace_over_live (pos < end()): waived per slot by the injected ghost windows, not by an input region */
-
-    ELEM *r = vector_emplace(&v, v.m_data + pos, x);
-''' + INSERT_POST % {'f': 'emplace(pos, a)'} + '''
-    CANARY("emplace(pos, a) end reachable");
-}
-''', kf=['C02_insert_raw_slot', 'C02_emplace_over_live'], extra=SPLIT, assumptions=SPLIT_NOTE, need_j=True)
 
 # ---------------------------------------------------------------------------------------------- two-vector scenarios
 PRE2 = '''
@@ -482,8 +301,6 @@ unit('assign_copy',
 void harness(void)
 {''' + PRE2 + '''
     WIT(int, self_assign);
-    /* known finding: the new block is allocated with the size left by invalidate() (0 slots), then v.size() elements are constructed in it */
-    C02_KF(KF_C02_copy_assign_alloc0, !self_assign && size > 0);
     int src_k = k < size ? ELEM_V(&v.m_data[k]) : 0;
     int w_k = k < wsize ? ELEM_V(&w.m_data[k]) : 0;
     ELEM *d0 = v.m_data, *wd0 = w.m_data;
@@ -505,7 +322,7 @@ void harness(void)
     if (k < size) __CPROVER_assert(ELEM_V(&v.m_data[k]) == src_k, "frame: copy assignment: the source elements keep their value");
     CANARY("copy assignment end reachable");
 }
-''', kf=['C02_copy_assign_alloc0'], extra={'solver': 'cadical'})
+''', extra={'solver': 'cadical'})
 
 unit('move_ops',
      ['igris::vector::vector(vector&&)', 'igris::vector::operator=(vector&&)', 'igris::vector::invalidate'],
@@ -698,55 +515,229 @@ void harness(void)
                                           'changeBuffer / array_destructor inside keep their loop contracts, blocks are of symbolic size)',
                'unwindset': ['vector_ctor_iter.0:4']})
 
-# ---------------------------------------------------------------------------------------------- insert(pos, first, last)
-unit('insert_range',
-     ['igris::vector::insert(iterator, const_iterator, const_iterator)', 'std::move_backward stub', 'std::copy stub', 'std::prev stub'],
-     ['NOREALLOC', 'AD', 'CB'],
-     'insert(pos, first, last), begin() <= pos <= end(), [first, last) a range of live elements outside the vector (the ranges std::vector::insert '
-     'accepts) or an empty range: size() grows by last-first, elements before pos unchanged, [pos, pos+n) are copies of [first, last), the old elements '
-     'from pos on move up by n; only live elements are assigned to, new slots are constructed, every access stays inside its block',
+
+# ============================================================================================== units rewritten for the repaired code
+# ---------------------------------------------------------------------------------------------- erase(pos)
+unit('erase_it',
+     ['igris::vector::erase(iterator)', 'igris::vector::erase(iterator, iterator)', 'igris::array_destructor'],
+     ['AD'],
+     'erase(pos), pos dereferenceable (std::vector::erase(const_iterator)): removes exactly the element at pos - size()-1, elements before pos keep their '
+     'place, elements after pos move down by one; exactly one element object is destroyed (nothing alive at or above the new size(), nothing assigned to '
+     'or moved from a destroyed object); block and capacity kept',
      '''
 void harness(void)
 {''' + PRE + '''
-    WIT(size_t, pos); WIT(int, foreign); WIT(size_t, fi); WIT(size_t, m);
-    WIT_ARR(int, scontent, 4);
-    __CPROVER_assume(pos <= size && m <= C02_MAXN && size + m <= C02_MAXN);
+    WIT(size_t, pos);
+    __CPROVER_assume(pos < size);               /* ISO: pos is a valid dereferenceable iterator */
+    ELEM *d0 = v.m_data;
+    int old_k = k < size ? ELEM_V(&v.m_data[k]) : 0;
+    int old_j = (k < size && k + 1 < size) ? ELEM_V(&v.m_data[k + 1]) : 0;      /* pre-state value of the source of slot k */
+
+    vector_erase_at(&v, v.m_data + pos);
+
+    c02_vec_check(&v);
+    c02_no_leak(&v, NULL);
+    __CPROVER_assert(v.m_data == d0 && v.m_capacity == cap, "value: erase(pos): block and capacity unchanged");
+    __CPROVER_assert(v.m_size == size - 1, "value: erase(pos): size() shrinks by one");
+    if (k < pos) __CPROVER_assert(ELEM_V(&v.m_data[k]) == old_k, "value: erase(pos): elements before pos keep their value and position");
+    if (k >= pos && k < size - 1) __CPROVER_assert(ELEM_V(&v.m_data[k]) == old_j, "value: erase(pos): elements after pos move down by one");
+    CANARY("erase(pos) end reachable");
+}
+''', extra={'solver': 'cadical'})
+
+# ---------------------------------------------------------------------------------------------- erase(first, last)
+unit('erase_range',
+     ['igris::vector::erase(iterator, iterator)', 'igris::array_destructor', 'std::move(first, last, d) stub'],
+     ['AD'],
+     'erase(first, last), begin() <= first <= last <= end(): removes [first, last) - size() shrinks by last-first, elements before first keep their place, '
+     'elements from last on move down by last-first; exactly last-first element objects are destroyed: nothing is assigned to or moved from a destroyed '
+     'slot, nothing alive at or above the new size(); block and capacity kept',
+     '''
+void harness(void)
+{''' + PRE + '''
+    WIT(size_t, fi); WIT(size_t, li);
+    __CPROVER_assume(fi <= li && li <= size);
+    __CPROVER_assume(!isnull);                   /* nullptr - nullptr is defined in C++ only; see PROPERTY.json */
+    ELEM *d0 = v.m_data;
+    int old_k = k < size ? ELEM_V(&v.m_data[k]) : 0;
+    int old_j = (k < size && k + (li - fi) < size) ? ELEM_V(&v.m_data[k + (li - fi)]) : 0;      /* pre-state value of the source of slot k */
+
+    vector_erase_range(&v, v.m_data + fi, v.m_data + li);
+
+    c02_vec_check(&v);
+    c02_no_leak(&v, NULL);
+    __CPROVER_assert(v.m_data == d0 && v.m_capacity == cap, "value: erase(first, last): block and capacity unchanged");
+    __CPROVER_assert(v.m_size == size - (li - fi), "value: erase(first, last): size() shrinks by last - first");
+    if (k < fi) __CPROVER_assert(ELEM_V(&v.m_data[k]) == old_k, "value: erase(first, last): elements before first keep their value and position");
+    if (k >= fi && k < size - (li - fi)) __CPROVER_assert(ELEM_V(&v.m_data[k]) == old_j, "value: erase(first, last): elements from last on move down by last - first");
+    CANARY("erase(first, last) end reachable");
+}
+''', extra={'solver': 'cadical'})
+
+# ---------------------------------------------------------------------------------------------- insert(pos, value)
+INSERT_PRE = '''
+    WIT(size_t, pos); WIT(int, x);
+    __CPROVER_assume(pos <= size && size < C02_MAXN && 0 <= x && x <= C02_VMAX);
+    __CPROVER_assume(REALLOC ? size == cap : size < cap);   /* case split (params): with / without reallocation */
+    __CPROVER_assume(k == 0 ? j == 0 : j == k - 1);         /* second tracked slot = the source of slot k (value bookkeeping only) */
+    ELEM *d0 = v.m_data;
+    int old_k = k < size ? ELEM_V(&v.m_data[k]) : 0;
+    int old_j = (k > 0 && k - 1 < size) ? ELEM_V(&v.m_data[k - 1]) : 0;     /* pre-state value of the source of slot k (== slot j) */
+'''
+INSERT_POST = '''
+    c02_vec_check(&v);
+    c02_no_leak(&v, NULL);
+    __CPROVER_assert(v.m_size == size + 1, "value: %(f)s: size() grows by one");
+    __CPROVER_assert(r == v.m_data + pos, "value: %(f)s: returns an iterator to the inserted element");
+    if (k < pos) __CPROVER_assert(ELEM_V(&v.m_data[k]) == old_k, "value: %(f)s: elements before pos keep their value and position");
+    if (k == pos) __CPROVER_assert(ELEM_V(&v.m_data[k]) == x, "value: %(f)s: the element at pos is the new one");
+    if (k > pos && k <= size) __CPROVER_assert(ELEM_V(&v.m_data[k]) == old_j, "value: %(f)s: elements from pos on move up by one");
+    if (size < cap) __CPROVER_assert(v.m_data == d0 && v.m_capacity == cap, "value: %(f)s: no reallocation while size() < capacity()");
+'''
+SPLIT = {'params': {'REALLOC': [0]}, 'params_thorough': {'REALLOC': [0, 1]}, 'timeout': 400, 'solver': 'cadical'}
+SPLIT_INS = dict(SPLIT, params={'REALLOC': [0], 'BYINDEX': [0]}, params_thorough={'REALLOC': [0, 1], 'BYINDEX': [0, 1]})
+SPLIT_NOTE = ['quick tier: the case size() < capacity() (no reallocation); thorough tier: also size() == capacity() (solver time > 60 s)']
+unit('insert_value',
+     ['igris::vector::insert(const_iterator, const T&)', 'igris::vector::insert(int, const T&)', 'std::move_backward stub'],
+     ['NOREALLOC', 'AD', 'CB', 'TMPCHK'],
+     'insert(pos, x), begin() <= pos <= end(), x outside the vector, from an arbitrary VEC state: size()+1, elements before pos unchanged, element pos == x, '
+     'elements from pos on moved up by one, iterator to the new element returned; lifetime - the new last slot is move-constructed (or constructed from the '
+     'copy of x), only live elements are assigned to / moved from, the temporary copy of x is constructed in raw storage and destroyed exactly once, nothing '
+     'alive above size(); the (int pos) overload forwards to it',
+     '''
+void harness(void)
+{''' + PRE + INSERT_PRE + '''
+    int by_index = BYINDEX;       /* params: the (int pos) overload is exercised in the thorough tier */
+    ELEM *val = (ELEM *)NEW_OBJ(sizeof(ELEM)); ELEM_SET(val, ELEM_LIVE, x); g_solo = val;
+    if (by_index) __CPROVER_assume(pos <= 0x7fffffff);
+
+    ELEM *r = by_index ? vector_insert_at(&v, (int)pos, val) : vector_insert(&v, v.m_data + pos, val);
+''' + INSERT_POST % {'f': 'insert(pos, x)'} + '''
+    __CPROVER_assert(C02_IS(val, ELEM_LIVE, x), "frame: insert(pos, x): the argument is not modified");
+    CANARY("insert(pos, x) end reachable");
+}
+''', extra=SPLIT_INS, assumptions=SPLIT_NOTE, need_j=True)
+
+unit('insert_alias',
+     ['igris::vector::insert(const_iterator, const T&) with an element of the vector as argument'],
+     ['NOREALLOC', 'AD', 'CB', 'TMPCHK'],
+     'insert(pos, v[a]) (std::vector supports an argument that is an element of the vector), any a, with or without reallocation: the inserted element '
+     'equals the value v[a] had before the call; the argument is copied while it is a live element of a live block (the shifted elements are covered by insert_value)',
+     '''
+void harness(void)
+{''' + PRE + '''
+    WIT(size_t, pos); WIT(size_t, a);
+    __CPROVER_assume(pos <= size && size < C02_MAXN);
+    __CPROVER_assume(a < size && j == a);       /* second tracked slot = the argument (value bookkeeping only) */
+    __CPROVER_assume(REALLOC ? size == cap : size < cap);   /* case split (params): with / without reallocation */
+    ELEM *val = &v.m_data[a];
+    int x = ELEM_V(val);
+    int old_k = k < size ? ELEM_V(&v.m_data[k]) : 0;
+
+    ELEM *r = vector_insert(&v, v.m_data + pos, val);
+
+    c02_vec_check(&v);
+    c02_no_leak(&v, NULL);
+    __CPROVER_assert(v.m_size == size + 1, "value: insert(pos, v[a]): size() grows by one");
+    __CPROVER_assert(r == v.m_data + pos, "value: insert(pos, v[a]): returns an iterator to the inserted element");
+    if (k < pos) __CPROVER_assert(ELEM_V(&v.m_data[k]) == old_k, "value: insert(pos, v[a]): elements before pos keep their value and position");
+    if (k == pos) __CPROVER_assert(ELEM_V(&v.m_data[k]) == x, "value: insert(pos, v[a]): the element at pos has the value v[a] had before the call");
+    CANARY("insert(pos, v[a]) end reachable");
+}
+''', extra=SPLIT, assumptions=SPLIT_NOTE, need_j=True)
+
+# ---------------------------------------------------------------------------------------------- emplace(pos, arg)
+unit('emplace',
+     ['igris::vector::emplace(const_iterator, 1 arg)', 'std::move_backward stub'],
+     ['NOREALLOC', 'AD', 'CB'],
+     'emplace(pos, a) (one constructor argument), begin() <= pos <= end(), from an arbitrary VEC state: as insert(pos, T(a)); lifetime - the new last slot is '
+     'move-constructed, the element at pos is destroyed before T(a) is constructed in its storage (pos == end(): constructed in raw storage)',
+     '''
+void harness(void)
+{''' + PRE + INSERT_PRE + '''
+    ELEM *r = vector_emplace(&v, v.m_data + pos, x);
+''' + INSERT_POST % {'f': 'emplace(pos, a)'} + '''
+    CANARY("emplace(pos, a) end reachable");
+}
+''', extra=SPLIT, assumptions=SPLIT_NOTE, need_j=True)
+
+# ---------------------------------------------------------------------------------------------- insert(pos, first, last)
+unit('insert_range',
+     ['igris::vector::insert(iterator, const_iterator, const_iterator)', 'igris::vector::insert(const_iterator, const T&)'],
+     ['NOREALLOC', 'AD', 'CB'],
+     'insert(pos, first, last) with a range of at most 1 live element outside the vector (the loop over insert(pos, value) is unwound; insert(pos, value) '
+     'itself is proved for an arbitrary VEC state by insert_value): size() grows by n, elements before pos unchanged, [pos, pos+n) are copies of [first, last) '
+     'in order, the old elements from pos on move up by n; VEC holds, the source range is untouched, one reserve at most',
+     '''
+void harness(void)
+{''' + PRE + '''
+    WIT(size_t, pos); WIT(size_t, m);
+    WIT_ARR(int, scontent, 2);
+    __CPROVER_assume(pos <= size && m <= MAXM && size + 2 <= C02_MAXN);       /* params: MAXM = 1 */
     __CPROVER_assume(REALLOC ? size + m > cap : size + m <= cap);   /* case split (params): with / without reallocation */
-    ELEM *src = NULL;
-    const ELEM *first, *last;
-    if (foreign) {
-        src = (ELEM *)NEW_OBJ(m * sizeof(ELEM));
-#ifdef WITNESS_MODE
-        for (size_t i = 0; i < m; i++) ELEM_SET(&src[i], ELEM_LIVE, scontent[i]);
-#else
-        if (k < m) __CPROVER_assume(ELEM_ST(&src[k]) == ELEM_LIVE);
-        if (k >= pos && k - pos < m && k - pos != k) __CPROVER_assume(ELEM_ST(&src[k - pos]) == ELEM_LIVE);
-#endif
-        first = src; last = src + m;
-    } else {
-        /* an empty range given by two equal iterators into the vector itself */
-        __CPROVER_assume(!isnull && fi <= size && m == 0);
-        first = last = v.m_data + fi;
-    }
-    /* known finding: only an empty range of own iterators is handled correctly */
-    C02_KF(KF_C02_insert_range, foreign);
+    ELEM src[2];
+    for (int i = 0; i < 2; i++) ELEM_SET(&src[i], ELEM_LIVE, scontent[i] & C02_VMAX);
     __CPROVER_assume(k < m ? j == 0 : j == k - m);      /* second tracked slot = the source of slot k (value bookkeeping only) */
     ELEM *d0 = v.m_data;
     int old_k = k < size ? ELEM_V(&v.m_data[k]) : 0;
-    int old_j = j < size ? ELEM_V(&v.m_data[j]) : 0;
-    int src_k = (foreign && k >= pos && k - pos < m) ? ELEM_V(&src[k - pos]) : 0;
+    int old_j = (k >= m && k - m < size) ? ELEM_V(&v.m_data[k - m]) : 0;   /* pre-state value of the source of slot k (== slot j) */
 
-    ELEM *r = vector_insert_range(&v, v.m_data + pos, first, last);
+    ELEM *r = vector_insert_range(&v, v.m_data + pos, src, src + m);
 
     c02_vec_check(&v);
     c02_no_leak(&v, NULL);
     __CPROVER_assert(v.m_size == size + m, "value: insert(pos, first, last): size() grows by last - first");
     __CPROVER_assert(r == v.m_data + pos, "value: insert(pos, first, last): returns an iterator to the first inserted element");
     if (k < pos) __CPROVER_assert(ELEM_V(&v.m_data[k]) == old_k, "value: insert(pos, first, last): elements before pos keep their value and position");
-    if (k >= pos && k - pos < m) __CPROVER_assert(ELEM_V(&v.m_data[k]) == src_k, "value: insert(pos, first, last): [pos, pos+n) are copies of [first, last)");
-    if (k >= pos + m && k < size + m) __CPROVER_assert(ELEM_V(&v.m_data[k]) == old_j, "value: insert(pos, first, last): elements from pos on move up by n");
+    if (k >= pos && k - pos < m) __CPROVER_assert(ELEM_V(&v.m_data[k]) == (scontent[k - pos] & C02_VMAX), "value: insert(pos, first, last): [pos, pos+n) are copies of [first, last)");
+    /* with two shifts the value passes through the untracked slot k-1: claimed for n <= 1 (n == 2 is two applications of insert_value's clause) */
+    if (m <= 1 && k >= pos + m && k < size + m) __CPROVER_assert(ELEM_V(&v.m_data[k]) == old_j, "value: insert(pos, first, last): elements from pos on move up by n");
     if (m == 0) __CPROVER_assert(v.m_data == d0 && v.m_capacity == cap, "value: insert(pos, first, last): an empty range changes nothing");
+    for (int i = 0; i < 2; i++) __CPROVER_assert(C02_IS(&src[i], ELEM_LIVE, scontent[i] & C02_VMAX), "frame: insert(pos, first, last): the source range is untouched");
+    __CPROVER_assert(g_alloc_calls <= 1, "value: insert(pos, first, last): at most one allocation");
     CANARY("insert(pos, first, last) end reachable");
 }
-''', kf=['C02_insert_range'], extra=dict(SPLIT, params_thorough={'REALLOC': [0]}),
-     assumptions=['insert_range: only the case size()+n <= capacity() is run (an empty range never reallocates; the known finding is probed without reallocation)', 'insert_range: the empty own-iterator range is taken on a vector that owns a block (nullptr - nullptr is defined in C++, not in C)'], need_j=True)
+''', extra=dict(SPLIT, kind='bounded', bound='source range of at most 1 element (the loop over insert(pos, value) unwound twice with unwinding assertion; '
+                                                  'blocks are of symbolic size, the loops of changeBuffer / array_destructor keep their loop contracts)',
+               unwindset=['vector_insert_range.0:2'], params={'REALLOC': [0], 'MAXM': [1]}, params_thorough={'REALLOC': [0], 'MAXM': [1]}),
+     assumptions=['insert_range: only the case size()+n <= capacity() is run (with a reallocation the unwound formula exceeds 8 GB); reserve() with reallocation is proved by unit reserve, insert(pos, value) after a reallocation by insert_value in the thorough tier'], need_j=True)
+# ---------------------------------------------------------------------------------------------- insert(pos, first, last), two elements (thorough tier)
+unit('insert_range2',
+     ['igris::vector::insert(iterator, const_iterator, const_iterator)', 'igris::vector::insert(const_iterator, const T&)'],
+     ['NOREALLOC', 'AD', 'CB'],
+     'insert(pos, first, last) with a range of at most 2 live elements outside the vector (thorough tier; two elements expose the order of the insertions) (the loop over insert(pos, value) is unwound; insert(pos, value) '
+     'itself is proved for an arbitrary VEC state by insert_value): size() grows by n, elements before pos unchanged, [pos, pos+n) are copies of [first, last) '
+     'in order, the old elements from pos on move up by n; VEC holds, the source range is untouched, one reserve at most',
+     '''
+void harness(void)
+{''' + PRE + '''
+    WIT(size_t, pos); WIT(size_t, m);
+    WIT_ARR(int, scontent, 2);
+    __CPROVER_assume(pos <= size && m <= MAXM && size + 2 <= C02_MAXN);       /* params: MAXM = 2 */
+    __CPROVER_assume(REALLOC ? size + m > cap : size + m <= cap);   /* case split (params): with / without reallocation */
+    ELEM src[2];
+    for (int i = 0; i < 2; i++) ELEM_SET(&src[i], ELEM_LIVE, scontent[i] & C02_VMAX);
+    __CPROVER_assume(k < m ? j == 0 : j == k - m);      /* second tracked slot = the source of slot k (value bookkeeping only) */
+    ELEM *d0 = v.m_data;
+    int old_k = k < size ? ELEM_V(&v.m_data[k]) : 0;
+    int old_j = (k >= m && k - m < size) ? ELEM_V(&v.m_data[k - m]) : 0;   /* pre-state value of the source of slot k (== slot j) */
+
+    ELEM *r = vector_insert_range(&v, v.m_data + pos, src, src + m);
+
+    c02_vec_check(&v);
+    c02_no_leak(&v, NULL);
+    __CPROVER_assert(v.m_size == size + m, "value: insert(pos, first, last): size() grows by last - first");
+    __CPROVER_assert(r == v.m_data + pos, "value: insert(pos, first, last): returns an iterator to the first inserted element");
+    if (k < pos) __CPROVER_assert(ELEM_V(&v.m_data[k]) == old_k, "value: insert(pos, first, last): elements before pos keep their value and position");
+    if (k >= pos && k - pos < m) __CPROVER_assert(ELEM_V(&v.m_data[k]) == (scontent[k - pos] & C02_VMAX), "value: insert(pos, first, last): [pos, pos+n) are copies of [first, last)");
+    /* with two shifts the value passes through the untracked slot k-1: claimed for n <= 1 (n == 2 is two applications of insert_value's clause) */
+    if (m <= 1 && k >= pos + m && k < size + m) __CPROVER_assert(ELEM_V(&v.m_data[k]) == old_j, "value: insert(pos, first, last): elements from pos on move up by n");
+    if (m == 0) __CPROVER_assert(v.m_data == d0 && v.m_capacity == cap, "value: insert(pos, first, last): an empty range changes nothing");
+    for (int i = 0; i < 2; i++) __CPROVER_assert(C02_IS(&src[i], ELEM_LIVE, scontent[i] & C02_VMAX), "frame: insert(pos, first, last): the source range is untouched");
+    __CPROVER_assert(g_alloc_calls <= 1, "value: insert(pos, first, last): at most one allocation");
+    CANARY("insert(pos, first, last) end reachable");
+}
+''', extra=dict(SPLIT, kind='bounded', bound='source range of at most 2 elements (the loop over insert(pos, value) unwound 3 times with unwinding assertion; '
+                                                  'blocks are of symbolic size, the loops of changeBuffer / array_destructor keep their loop contracts)',
+               unwindset=['vector_insert_range.0:3'], tier='thorough', params={'REALLOC': [0], 'MAXM': [2]}, params_thorough={'REALLOC': [0], 'MAXM': [2]}),
+     assumptions=['insert_range: only the case size()+n <= capacity() is run (with a reallocation the unwound formula exceeds 8 GB); reserve() with reallocation is proved by unit reserve, insert(pos, value) after a reallocation by insert_value in the thorough tier'], need_j=True)
